@@ -79,6 +79,9 @@ type G struct {
 	feats map[string]bool
 	det   bool
 	nest  int
+	// uniq answers a done request with its pending value, which crashes a fork
+	// downstream of it ("non-nil done batch"): no fork/switch/join after uniq
+	uniqUsed bool
 }
 
 // Gen draws a program for an input summarised by s.
@@ -224,7 +227,7 @@ func (g *G) op(s *st, last bool) string {
 	}
 	// Forks are not nested: the runtime's end-of-stream protocol deadlocks on
 	// shapes such as `fork (=> pass => fork (=> pass => pass) | sort b)`.
-	if !g.o.NoFork && g.nest == 0 {
+	if !g.o.NoFork && g.nest == 0 && !g.uniqUsed {
 		add(6, func() string { return g.forkOp(s) })
 		add(4, func() string { return g.switchOp(s) })
 		if !g.o.NoJoin && s.recs {
@@ -683,6 +686,7 @@ func (g *G) headTail(s *st) string {
 func (g *G) uniqOp(s *st) string {
 	pre := g.needOrder(s)
 	g.feat("uniq")
+	g.uniqUsed = true
 	if g.chance(30, "uniq-c") {
 		s.fields = []*Field{generic("value"), generic("count")}
 		s.recs = true
@@ -793,8 +797,8 @@ func (g *G) summarizeOpKey(s *st, onKey bool) string {
 		} else if g.o.SortKey != "" && i == keyPos && (onKey || g.chance(60, "bykey")) {
 			// primary key = declared sort key or an order-preserving function of it
 			name = g.o.SortKey
-			switch g.intn(7, "keyfn") {
-			case 6:
+			switch g.intn(10, "keyfn") {
+			case 6, 7, 8:
 				// not monotone: must not be taken for an order-preserving key
 				text = name + ":=" + pickStr(g, []string{"abs", "len", "typeof"}, "nonmono") + "(" + name + ")"
 				g.feat("by-nonmonotone(sortkey)")
